@@ -35,6 +35,7 @@ let parse_list (s:string) : slot list =
 let sgn = function None -> "X" | Some Z0 -> "0" | Some (Zpos _) -> "+" | Some (Zneg _) -> "-"
 let b01 = function None -> "X" | Some true -> "1" | Some false -> "0"
 let zlen l = z_of_int (List.length l)
+let msgbuf = List.init 1024 (fun _ -> z_of_int 170)   (* the harness's destination: 1024 bytes of 0xaa *)
 let cmp a b = m_cmp a b (zlen a) (zlen b)
 let eq a b = m_eq a b (zlen a) (zlen b)
 
@@ -78,7 +79,12 @@ let () = each_line (fun line ->
         let msg = match it with
           | Some l when has_null l -> "ERR"
           | _ when v = [] -> "-"
-          | _ -> (match m_avmessage addr v (zlen v) with Some m -> hex_of_bytes m | None -> "ERR") in
+          | _ -> (match m_avmessage (Some msgbuf) addr v (zlen v) with
+                  | Some (n, Some b) when int_of_z n > 0 ->
+                    let k = int_of_z n in
+                    let tail_ok = List.for_all (fun x -> int_of_z x = 170) (List.filteri (fun i _ -> i >= k) b) in
+                    hex_of_bytes (List.filteri (fun i _ -> i < k) b) ^ (if tail_ok then "" else "TAIL")
+                  | _ -> "ERR") in
         Printf.sprintf "e%s%sc%s%ss%s%s it=%s msg=%s"
           (b01 (eq v b)) (b01 (eq b v)) (sgn (cmp v b)) (sgn (cmp b v)) (sgn (cmp v v0)) (b01 (eq v v0))
           (match it with Some l -> show_vals ',' l | None -> "OOB") msg in
